@@ -222,6 +222,7 @@ type OpRec struct {
 	WritesAtStart  int
 	WritesAtEnd    int
 	CbFired        []string
+	CbTimes        []time.Duration // fake time at which each callback function was entered
 }
 
 // platInput renders the login secret of a platform definition: an all-digit secret goes into the
@@ -786,6 +787,7 @@ func (sr *SessionRun) do(env *Env, op *OpSpec, o []util.Option, rec *OpRec) {
 			name, wr, fail := cs.Name, cs.Write, cs.Fail
 			cb, err := generic.NewCallback(func(d *generic.Driver, s string) error {
 				sr.cbRec.CbFired = append(sr.cbRec.CbFired, name+"|"+s)
+				sr.cbRec.CbTimes = append(sr.cbRec.CbTimes, env.K.Now())
 				if fail {
 					return errCallbackFailed
 				}
